@@ -104,7 +104,7 @@ def provider_paths(inputs):
         httpd = lp.provider._http_server.httpd
         escaped = []
         httpd.handle_error = lambda request, client_address: escaped.append(repr(__import__('sys').exc_info()[1]))
-        tails = ['/Get', '/Get%E2%82%AC', '/Get%0D%0AX-Injected:%20yes', '/Get%00', '/%FF%FE', '/Nope', '/Get/extra', '//Get',
+        tails = ['/Get\x01', '/\x1b[31m', '/Get\x7f', '/Get\x08x', '/Get', '/Get%E2%82%AC', '/Get%0D%0AX-Injected:%20yes', '/Get%00', '/%FF%FE', '/Nope', '/Get/extra', '//Get',
                  '/Get%2F..%2FGet', '/%E2%82%AC%0D%0A%0D%0A', '/Get?x=%E2%82%AC', '/Get%20%20', '/G%65t']
         for tail in tails:
             req = (f'POST {base}{tail} HTTP/1.1\r\nHost: x\r\nContent-Type: application/soap+xml\r\n'
@@ -133,6 +133,12 @@ def provider_paths(inputs):
             if not data.startswith(b'HTTP/1.'):
                 return {'violates': True, 'witness_key': 'no-status:provider-path', 'input': {'path': base + tail},
                         'detail': f'POST {tail}: no status line, got {data[:60]!r}'}
+            import re as _re
+            odd = [ln for ln in lines[1:] if not _re.match(rb'^[A-Za-z0-9-]+:', ln)]
+            if odd or b'\n' in head.replace(b'\r\n', b''):
+                return {'violates': True, 'witness_key': 'malformed-header-section:provider-path', 'input': {'path': base + tail},
+                        'detail': f'POST {tail!r}: the header section of the answer is not a status line plus header lines '
+                                  f'(e.g. a multi-line reason phrase): {head[:160]!r}'}
             if any(ln.lower().startswith(b'x-injected') for ln in lines[1:]):
                 return {'violates': True, 'witness_key': 'header-injection:provider-path', 'input': {'path': base + tail},
                         'detail': f'POST {tail}: the answer contains a header line chosen by the client: {lines[:4]!r}'}
@@ -181,3 +187,41 @@ def open_connection_framing(inputs):
                 return {'violates': True, 'witness_key': f'no-status:{name}', 'input': {'framing': name},
                         'detail': f'POST with {hdr!r}: answer without status line: {data[:60]!r}'}
     return {'violates': False, 'detail': f'{len(framings)} framings answered while the connection stayed open'}
+
+
+def fault_text(inputs):
+    """Fault.add_reason_text for EVERY Unicode code point (the function acts per character): the stored text can be put
+    into an XML element, legal characters are kept."""
+    from lxml import etree
+    from sdc11073.pysoap.soapenvelope import Fault
+    bad = None
+    n = 0
+    for start in range(0, 0x110000, 2048):
+        chunk = ''.join(chr(c) for c in range(start, min(start + 2048, 0x110000)))
+        f = Fault()
+        f.add_reason_text('x' + chunk)
+        stored = f.Reason.Text[-1].text
+        n += len(chunk)
+        try:
+            etree.Element('a').text = stored
+        except ValueError as ex:
+            # find the character
+            for ch in chunk:
+                g = Fault()
+                g.add_reason_text(ch)
+                try:
+                    etree.Element('a').text = g.Reason.Text[-1].text
+                except ValueError:
+                    bad = (ch, repr(ex))
+                    break
+            break
+        if len(stored) != len(chunk) + 1:
+            return {'violates': True, 'witness_key': 'fault-text-length', 'detail': f'code points {start:#x}..: text length changed'}
+        for a, b2 in zip(chunk, stored[1:]):
+            legal = a in '\t\n\r' or 0x20 <= ord(a) <= 0xd7ff or 0xe000 <= ord(a) <= 0xfffd or ord(a) >= 0x10000
+            if legal and a != b2:
+                return {'violates': True, 'witness_key': 'fault-text-changed', 'detail': f'legal character U+{ord(a):04X} was replaced'}
+    if bad:
+        return {'violates': True, 'witness_key': 'fault-text-not-serializable', 'input': {'char': ord(bad[0])},
+                'detail': f'a fault whose reason quotes U+{ord(bad[0]):04X} cannot be serialized: {bad[1]}'}
+    return {'violates': False, 'detail': f'{n} code points'}
